@@ -103,6 +103,21 @@ pub struct Config {
 }
 
 impl Config {
+    /// Very long histories: nesting beyond 1024 plies (1100-1500 ops, almost all of them makes), then
+    /// fully unwound. Any bookkeeping with a fixed capacity or a wrapping index shows up here.
+    pub fn long() -> Config {
+        Config {
+            mix: Mix::General,
+            max_ops: 1500,
+            max_depth: 1500,
+            w_make: 40,
+            w_undo: 1,
+            w_null: 2,
+            unwind_at_end: true,
+            shuffle_bias: true,
+        }
+    }
+
     pub fn search_like(max_ops: usize) -> Config {
         Config {
             mix: Mix::General,
@@ -160,7 +175,13 @@ pub fn interpret(case: &HistCase, cfg: &Config, st: &mut Stats, obs: &mut dyn Ob
     };
     obs.at_root(&g, &cur, st).map_err(|f| attach(f, &done))?;
     let n_ops = match (&mut tape, &explicit_ops) {
-        (Some(t), _) => 1 + t.pick(cfg.max_ops),
+        (Some(t), _) => {
+            if cfg.max_ops >= 1000 {
+                cfg.max_ops - t.pick(400)
+            } else {
+                1 + t.pick(cfg.max_ops)
+            }
+        }
         (_, Some(o)) => o.len(),
         _ => 0,
     };
